@@ -9,7 +9,8 @@ LEVEL = "model_checking"
 RULE = ("on the state graph of C11 (every reachable abstract key state, rebuilt by replaying its witness history): for EVERY ciphertext attribute list A of the "
         "alphabet (per slot absent / v1 / v2 / v1 given unreduced as r+v1 / v1 with omitFromKeys set - a flag encryption must ignore; plus 0, 2^256-1 and marked v2 in the thorough tier) decrypt(encrypt(m,A),key) == m IFF A and the key's fixed pattern are equal as "
         "maps slot -> non-zero value mod r; from EVERY state with a hidden slot i, EVERY list that illegally gives slot i a value is pushed through qualifykey, "
-        "nondelegable_qualifykey and adjust_nondelegable and the resulting key must not decrypt any ciphertext in which slot i is set; each single-component "
+        "nondelegable_qualifykey and adjust_nondelegable and the resulting key must not decrypt any ciphertext in which slot i is set - also when slot i was hidden "
+        "by an adjust_nondelegable step (hidden entry with id 0 or with a non-zero id) rather than by a qualification; each single-component "
         "ciphertext modification (a*e, b+G2, c+G1) must change the decryption result. state = (key state, A); non-trivial = A non-empty")
 ASSUMPTIONS = ["a value that is 0 mod r contributes the neutral element, so 'absent' and '0' are the same ciphertext pattern",
                "inequality of decryption results is exact for the enumerated (deterministic) instances; a coincidence has probability ~2^-255"]
@@ -31,6 +32,13 @@ def as_map(pairs, vals):
         if v:
             m[i] = v
     return m
+
+
+def name_of(s, vals):
+    for n in ("v1", "v2", "1", "max", "r+v1"):
+        if vals[n] % ref.r == s:
+            return n
+    raise KeyError(s)
 
 
 def key_map(pattern):
@@ -76,6 +84,11 @@ def eval_case(case):
         Lill = case["list"]
         i = case["slot"]
         via = case["via"]
+        if case.get("hide"):
+            # the slot was hidden by an ADJUSTMENT of a non-delegable key (parent -> NDQ(from) -> adjust to `to`, which hides slot i)
+            key = W.apply(key, ["adjust", case["hide"][0], case["hide"][1]])
+            pat = wk.model_qualify(pat, case["hide"][1], W.vals)
+            assert pat[i] == wk.HID
         try:
             if via == "adjust":
                 new = W.apply(key, ["adjust", case["from"], Lill])
@@ -125,6 +138,20 @@ def run_shard(ctx, shard):
         emit(dict(base, sub="match", A=A, tamper=True), bool(A), "match:%s" % ("equal" if should else "different"))
         if ctx.out_of_time():
             return
+    # slots that an adjustment hides: from every state with a free slot i, adjust_nondelegable towards a list with a hidden entry on i,
+    # then try to give slot i a value through qualifykey / nondelegable_qualifykey on the adjusted key
+    free = wk.free_slots(pat)
+    if free:
+        for i in free:
+            for hidc in (wk.HID, wk.MARK + "v1"):
+                to = {"e": sorted([[j, name_of(s, vals)] for j, s in enumerate(pat) if s not in (wk.FREE, wk.HID)] + [[i, hidc]]), "omit": False}
+                frm = {"e": [[j, c] for j, c in to["e"] if j != i], "omit": False}
+                for frm2 in (frm, {"e": sorted(frm["e"] + [[i, "v2"]]), "omit": False}):
+                    Lill = {"e": sorted(frm["e"] + [[i, "v1"]]), "omit": False}
+                    for via in ("qualify", "ndqualify"):
+                        emit(dict(base, sub="fill", list=Lill, slot=i, via=via, hide=[frm2, to]), True, "fill-after-adjust:" + via)
+            if ctx.out_of_time():
+                return
     hidden = [i for i, s in enumerate(pat) if s == wk.HID]
     if hidden:
         lists = wk.list_alphabet(U["l"], U["names"], omit_flags=(False,))
@@ -151,7 +178,7 @@ def replay(ctx, case):
 
 
 def finish(merged, cov):
-    for need in ("match:equal", "match:different", "fill:qualify", "fill:ndqualify", "fill:adjust"):
+    for need in ("match:equal", "match:different", "fill:qualify", "fill:ndqualify", "fill:adjust", "fill-after-adjust:qualify"):
         if not merged.outcomes.get(need):
             return "class %s never exercised" % need
     cov["states"] = merged.extra.get("abstract_states", 1)
